@@ -74,7 +74,7 @@ def reference_sequence(s3, find_gaps):
 
 def build_pairs(s3, entries):
     """entries: [{r1, r2 (residue indices or ['absent', n]), lw, saenger(bool), }] -> BasePair list"""
-    from rnapolis.common import BasePair, LeontisWesthof, Residue, ResidueAuth, Saenger
+    from rnapolis.common import BasePair, LeontisWesthof, Residue, ResidueAuth, ResidueLabel, Saenger
 
     out = []
     for e in entries:
@@ -82,6 +82,17 @@ def build_pairs(s3, entries):
             if isinstance(x, list):
                 return Residue(None, ResidueAuth("zz", 9000 + x[1], None, "G"))
             r = s3.residues[x]
+            naming = e.get("naming")
+            # how a pair list names a residue of the structure: both identities as the structure has them (own
+            # annotation), one of them only (PDB-born lists, label-only tools), or both with a label the structure
+            # does not have - a list made on another form of the same molecule (mmCIF annotation applied to the
+            # PDB file, renumbered label_seq_id) whose author identity still names the residue
+            if naming == "auth-only" and r.auth is not None:
+                return Residue(None, r.auth)
+            if naming == "label-only" and r.label is not None:
+                return Residue(r.label, None)
+            if naming == "foreign-label" and r.auth is not None:
+                return Residue(ResidueLabel("zz", 5000 + x, r.auth.name), r.auth)
             return Residue(r.label, r.auth)
 
         lw = LeontisWesthof[e["lw"]]
@@ -382,11 +393,13 @@ def pairs_for_case(case, info=None):
                 if r1 == r2:
                     continue
             entries.append({"r1": r1, "r2": r2, "lw": e["lw"], "saenger": case.get("saenger", False)})
+            if case.get("naming"):
+                entries[-1]["naming"] = case["naming"][len(entries) % len(case["naming"])]
             if e.get("dup") == "exact":
                 entries.append(dict(entries[-1]))
             elif e.get("dup") == "reverse":
                 lw = e["lw"]
-                entries.append({"r1": r2, "r2": r1, "lw": lw[0] + lw[2] + lw[1], "saenger": case.get("saenger", False)})
+                entries.append({"r1": r2, "r2": r1, "lw": lw[0] + lw[2] + lw[1], "saenger": case.get("saenger", False), "naming": entries[-1].get("naming")})
         pairs2d = build_pairs(s3, entries)
     return s3, pairs2d
 
@@ -408,6 +421,8 @@ def classify(case):
         labs.append("own-annotation")
     if case.get("relabel"):
         labs.append("relabelled-chains-and-numbers")
+    if case.get("naming"):
+        labs.append("entries-named-by-" + "/".join(str(x) for x in case["naming"]))
     if info.get("skipped"):
         labs.append("skipped")
     nt = bool(info.get("conflict") or info.get("multiplet3") or info.get("strands", 0) >= 2)
@@ -441,6 +456,8 @@ def st_cases(files):
         order = draw(st.permutations(list(range(len(entries))))) if entries else []
         case = {"file": fn, "entries": [entries[k] for k in order], "find_gaps": draw(st.booleans()), "via_adapter": draw(st.booleans()),
                 "saenger": draw(st.booleans())}
+        # one naming convention per list, as a list written by one tool has
+        case["naming"] = draw(st.sampled_from([None, None, ["auth-only"], ["label-only"], ["foreign-label"]]))
         if draw(st.booleans()):
             case["relabel"] = {
                 "cuts": draw(st.lists(st.integers(1, 400), max_size=3)),
